@@ -14,6 +14,20 @@ def run(ctx):
         jobs += [("MC_AmlBase_InvInt.cfg", i * 4000000, i * 4000000 + 3999999) for i in range(1, 13)]
     with cf.ThreadPoolExecutor(max_workers=14) as ex:
         list(ex.map(lambda j: vlib.model_check(ctx, j[0], "MC_AmlBase.tla", workers=1, env={"LO": j[1], "HI": j[2]}, timeout=3600), jobs))
+    # symbolic: for ALL dword values the narrowest-prefix encoding decodes back and no narrower prefix fits (Apalache)
+    import os, subprocess, time
+    t0 = time.time()
+    try:
+        r = subprocess.run(["apalache-mc", "check", "--length=0", "--inv=Inv", "--init=Init", "--next=Next",
+                            "--out-dir=" + ctx.path("apalache"), os.path.join(vlib.SPEC, "APA_IntEnc.tla")],
+                           cwd=ctx.dir, stdout=subprocess.PIPE, stderr=subprocess.STDOUT, text=True, timeout=600)
+        ok = "EXITCODE: OK" in r.stdout and "NoError" in r.stdout
+        if not ok and ("violat" in r.stdout.lower() or "EXITCODE: ERROR (12)" in r.stdout):
+            raise vlib.ToolError("Apalache refutes the integer-constant theorem of the specification: " + r.stdout[-800:])
+        ctx.extra["apalache"] = {"module": "APA_IntEnc.tla", "result": "NoError" if ok else "not run to completion",
+                                 "domain": "all 0 <= v < 2^32 (symbolic); the QWord case is two dwords", "wall_s": round(time.time() - t0, 1)}
+    except (subprocess.TimeoutExpired, FileNotFoundError) as e:
+        ctx.extra["apalache"] = {"result": "unavailable: %s" % type(e).__name__}
     vals = set(range(0, 65536 + 300))                                   # all u8 and u16, each through every wider type
     for w in (8, 16, 32, 64):
         for d in range(-2, 3):
